@@ -21,7 +21,7 @@ CORR2 = ["missing sensors names", "missing points coordinates", "missing mapping
 ALL_STATES = ["geo1:" + c for c in CORR1] + ["geo2:" + c for c in CORR2] + ["table rows permuted against name order", "multi-setup names (table)", "multi-setup names (list of lists)",
                                                                                  "single names (row table)", "single names (list)", "single names (array)", "optional sheets all omitted",
                                                                                  "optional sheets all present", "constraints used", "constraints sheet omitted"]
-ALL_STATES += ["malformed tables given as arguments", "removed name is a substring of another cell", "sign table with row labels other than the points' labels"]
+ALL_STATES += ["mapping table with a purely numeric x or y column", "surface patches read back", "malformed tables given as arguments", "removed name is a substring of another cell", "sign table with row labels other than the points' labels"]
 REQUIRED_STATES = list(ALL_STATES)
 RULE = ("sensor sets of 1..12 names; coordinate/direction tables with rows permuted against the name order; mapping tables whose cells are sensor names, constraint "
         "names or 0/NaN; constraint matrices; sign tables in {-1,0,1}; one-based line/surface tables; optional sheets present/absent in every combination; "
@@ -111,13 +111,13 @@ def tables1(rng, flat, optional):
     return d
 
 
-def tables2(rng, flat, optional, with_constraints):
+def tables2(rng, flat, optional, with_constraints, plane=False):
     n = len(flat)
     npts = int(rng.integers(max(1, (n + 2) // 3), max(2, n) + 2))
-    while npts * 3 < n + (1 if with_constraints else 0):
+    while npts * (2 if plane else 3) < n + (2 if with_constraints else 0):
         npts += 1
     pts = pd.DataFrame(rng.integers(-9, 10, (npts, 3)).astype(float), index=pd.Index(range(1, npts + 1), name="ptName"), columns=["x", "y", "z"])
-    cells = [(i, j) for i in range(npts) for j in range(3)]
+    cells = [(i, j) for i in range(npts) for j in range(3) if not (plane and j == 1)]  # plane structure: nothing measured along y
     rng.shuffle(cells)
     mp = pd.DataFrame(np.zeros((npts, 3), dtype=object), index=pts.index.copy(), columns=["x", "y", "z"])
     mp[:] = 0
@@ -142,6 +142,14 @@ def tables2(rng, flat, optional, with_constraints):
     for (i, j) in rest:
         if rng.random() < 0.3:
             mp.iat[i, j] = np.nan
+    if plane or rng.random() < 0.4:
+        # as a spreadsheet reader delivers it: a direction column without any name is a numeric column (0 / NaN), not an object column
+        for col_ in mp.columns:
+            if not any(isinstance(v, str) for v in mp[col_]):
+                mp[col_] = mp[col_].astype(float)
+        tables2.numeric_cols = any(mp[c_].dtype.kind == "f" for c_ in mp.columns[:2])
+    else:
+        tables2.numeric_cols = False
     d = {"points coordinates": pts, "mapping": mp}
     if cst is not None:
         d["constraints"] = cst
@@ -481,7 +489,9 @@ def run_artists(ctx, rng):
     ctx.check(ok, "artists:geo1_quiver_segments", lambda: f"plot_mode_geo1: arrows do not run from the sensor named k to coord + dir*phi_k*scaleF (mode {mode}, scaleF {scaleF}); first arrow {quiv[:1]} expected {exp[:1]}")
     plt.close(fig)
     # geo2
-    t2 = tables2(rng, flat, "random", rng.random() < 0.5)
+    t2 = tables2(rng, flat, "random", rng.random() < 0.5, plane=bool(rng.random() < 0.5))
+    if len(t2["points coordinates"]) >= 3 and "sensors surfaces" not in t2:
+        t2["sensors surfaces"] = pd.DataFrame([1 + rng.permutation(len(t2["points coordinates"]))[:3]], columns=["i", "j", "k"])
     f2 = dict(t2)
     f2["sensors names"] = names_tab
     with patched_reader(f2):
@@ -510,6 +520,26 @@ def run_artists(ctx, rng):
             pts3 = np.array([np.asarray(o, float) for o in off]).T
             if pts3.shape == newpts.shape and (got is None or np.allclose(pts3, newpts)):
                 got = pts3  # background nodes may have the same count: prefer the collection that matches
+    if getattr(tables2, "numeric_cols", False):
+        ctx.state("mapping table with a purely numeric x or y column")
+    if "sensors surfaces" in t2:
+        # the surface patches are drawn on the displaced points as well
+        tri = np.asarray(t2["sensors surfaces"]).astype(int) - 1
+        Ev = newpts[tri.ravel()]
+        cands = []
+        for col in ax.collections:
+            if type(col).__name__ != "Poly3DCollection":
+                continue
+            faces, vec = getattr(col, "_faces", None), getattr(col, "_vec", None)  # vertex store of the installed / of older matplotlib
+            V3 = np.asarray(faces, float).reshape(-1, 3) if faces is not None else (np.asarray(vec)[:3].T if vec is not None else None)
+            if V3 is not None and len(V3) == len(Ev):
+                cands.append(V3)
+        ctx.ev("artists@plot_mode_geo2_mpl(surfaces)")
+        if cands:
+            key = lambda A: A[np.lexsort(np.round(A, 9).T[::-1])]  # noqa: E731
+            ctx.check(any(np.allclose(key(cv), key(Ev), atol=1e-9) for cv in cands), "artists:geo2_surfaces_not_on_displaced_points",
+                      lambda: f"plot_mode_geo2_mpl(color='red'): no surface patch has its vertices at points + mapped value * sign (expected {Ev.round(4).tolist()}, drawn {[c_.round(4).tolist() for c_ in cands]})")
+            ctx.state("surface patches read back")
     ctx.check(got is not None and np.allclose(got, newpts), "artists:geo2_displaced_points",
               lambda: f"plot_mode_geo2_mpl: scatter points are not points + mapped value * sign (mode {mode}, scaleF {scaleF}); got {None if got is None else got[:2]}, expected {newpts[:2]}")
     plt.close(fig)
